@@ -280,6 +280,14 @@ def Query.subject (q : Query) : Bytes × Query :=
 def snapshotBatch (db : DB) (sq : Query) : List Ev :=
   (list db.rows sq).map (fun r => ⟨db.evIdx, .upsert r⟩) ++ [⟨db.evIdx, .eos⟩]
 
+/-- `eventSnapshot.spliceFromTopicBuffer` started at the buffer head: the head item itself is kept when
+    its index is greater than the snapshot index (possible only after a restore reset the index);
+    otherwise the subscription continues with whatever is appended later. -/
+def splicePos (buf : List (List Ev)) (snapIdx : Nat) : Nat :=
+  match buf.getLast? with
+  | some (e :: _) => if e.idx > snapIdx then buf.length - 1 else buf.length
+  | _ => buf.length
+
 /-- `Store.WatchList` → `EventPublisher.Subscribe` (request index 0). Returns the handle. -/
 def World.watchOpen (w : World) (q : Query) : World × Nat :=
   let (key, sq) := q.subject
@@ -288,7 +296,7 @@ def World.watchOpen (w : World) (q : Query) : World × Nat :=
     | none => { key := key, buf := [], refs := 0, cache := none }
   let (batch, pos) := match sub.cache with
     | some c => c
-    | none => (snapshotBatch w.db sq, sub.buf.length)
+    | none => (snapshotBatch w.db sq, splicePos sub.buf w.db.evIdx)
   let sub' := { sub with refs := sub.refs + 1, cache := some (batch, pos) }
   let watch : Watch := { q := q, subj := key, inbox := [], snap := some batch, pos := pos, st := .opened, released := false }
   ({ w with subs := setSub sub' w.subs, watches := w.watches ++ [watch] }, w.watches.length)
